@@ -89,9 +89,26 @@ func cmdTTLRun(args []string) int {
 		// engines without native TTL (TiKV): Event records expire inside compaction, by the marks earlier compactions left.
 		// A compaction whose mark has aged, followed by a compaction at a LOWER revision.
 		_, okp := create(1, "plain")
+		r3, ok3 := create(3, "event-2")
 		re, oke := create(2, "event-1")
-		expect("setup: a plain key and an Event are created", okp && oke)
+		expect("setup: a plain key and two Events are created", okp && oke && ok3)
 		env.WaitCommitted(re, time.Second)
+		// the second Event is updated at the very moment the compactor, having found it expired on its snapshot, is about to
+		// remove its index record: its newest change is then younger than the TTL
+		raced, racedOK := false, false
+		var r3b uint64
+		env.Store.DelFault = func(p string, nth int, e gate.Event) string {
+			if k, _ := e["k"].(int); !raced && e["kk"] == "obj" && k == 3 {
+				if r, _ := e["r"].(int64); r == 0 {
+					raced = true
+					u, uerr := env.B.Update(ctx, &proto.UpdateRequest{Kv: &proto.KeyValue{Key: env.Keys.Raw(3), Value: []byte("event-2-updated"), Revision: r3}})
+					if uerr == nil && u.Succeeded {
+						racedOK, r3b = true, u.Header.Revision
+					}
+				}
+			}
+			return ""
+		}
 		_, c1err := env.B.Compact(ctx, 0)
 		expect("setup: first compaction (its mark: the Event's revision)", c1err == nil)
 		time.Sleep(2600 * time.Millisecond)
@@ -101,8 +118,16 @@ func cmdTTLRun(args []string) int {
 		expect("the Event older than the TTL reads as absent", !p)
 		_, okr := create(2, "event-1-again")
 		expect("... and is gone wholly (index and versions together): it can be created again", okr)
+		env.Store.DelFault = nil
 		p, v := present(1)
 		expect("the plain key is untouched", p && v == "plain")
+		expect("setup: the second Event was updated while the compactor was removing it", raced && racedOK)
+		p, v = present(3)
+		expect("an Event updated during its expiry is still there, with the new value", p && v == "event-2-updated")
+		u2, u2err := env.B.Update(ctx, &proto.UpdateRequest{Kv: &proto.KeyValue{Key: env.Keys.Raw(3), Value: []byte("event-2-again"), Revision: r3b}})
+		expect("... and whole (index and version together): a guarded update naming its revision succeeds", u2err == nil && u2.Succeeded)
+		_, okdup := create(3, "duplicate")
+		expect("... and a create of it is refused", !okdup)
 		return finish()
 	}
 	t0 := time.Now()
